@@ -357,19 +357,23 @@ def decodeEndFromMessage (tb : Tables) (p : ServerForm) (data : Bytes) : Option 
   | _ => none
 
 /-- Handling of a completely buffered end-of-stream message (shared by both writers). -/
-def handleEndMessage (w : World) (tb : Tables) (st : St) (compressed : Bool) (data : Bytes) : St × Bool × Bool :=
-  let data? : Option Bytes :=
+def handleEndMessage (w : World) (tb : Tables) (st : St) (compressed : Bool) (data : Bytes) (reportInflate : Bool) :
+    St × Option Err × Bool :=
+  let data? : Except Err Bytes :=
     if compressed && !data.isEmpty then
       match st.rw.cRespComp with
-      | some z => (decompressLimited w z data st.op.conf.maxMsg).toOption
-      | none => some data
-    else some data
+      | some z => decompressLimited w z data st.op.conf.maxMsg
+      | none => .ok data
+    else .ok data
   match data? with
-  | none => (st, true, false)         -- decompress error is returned without being reported
-  | some d =>
+  | .error err =>
+    -- `envelopingWriter.handleTrailer` reports a decompression failure itself; `transformingWriter`
+    -- returns it to `Write`, which reports it
+    if reportInflate then let (st, p) := reportError w st err; (st, some err, p) else (st, some err, false)
+  | .ok d =>
     match decodeEndFromMessage tb st.op.sform d with
-    | none => let (st, p) := reportError w st .other; (st, true, p)
-    | some e => let (st, p) := reportEnd w st { e with wasCompressed := compressed }; (st, false, p)
+    | none => let (st, p) := reportError w st .other; (st, some .other, p)
+    | some e => let (st, p) := reportEnd w st { e with wasCompressed := compressed }; (st, none, p)
 
 /-- `envelopingWriter.maybeInit`. -/
 def ewInit (w : World) (st : St) (e : EW) : St × EW × Bool :=
@@ -446,8 +450,8 @@ def ewLoop (w : World) (tb : Tables) : Nat → St → EW → Bytes → St × EW 
         match e.current with
         | .trailerBuf b =>
           let e := { e with mustRelease := false }
-          let (st, failed, p) := handleEndMessage w tb st e.trailerIsCompressed b
-          if failed || p then (st, e, true, p)
+          let (st, err, p) := handleEndMessage w tb st e.trailerIsCompressed b true
+          if err.isSome || p then (st, e, true, p)
           else
             let e := { e with err := true }
             if rest.isEmpty then (st, e, false, false) else ewLoop w tb fuel st e rest
@@ -499,8 +503,8 @@ def twReset (st : St) (t : TW) : TW :=
 def twFlushMessage (w : World) (tb : Tables) (st : St) (t : TW) : St × TW × Option Err × Bool :=
   let data := t.buffer.getD []
   if t.latest.trailer then
-    let (st, failed, p) := handleEndMessage w tb st t.latest.compressed data
-    if failed || p then (st, t, some .other, p) else (st, { t with err := true }, none, false)
+    let (st, err, p) := handleEndMessage w tb st t.latest.compressed data false
+    if err.isSome || p then (st, t, err, p) else (st, { t with err := true }, none, false)
   else
     match transformMsg w st.op.conf.maxMsg st.rw.sameRespCodec true t.msgCompressed st.rw.cRespComp st.rw.cRespComp
             st.op.scodec st.op.ccodec data with
